@@ -1,44 +1,212 @@
-"""C46 — endpoint description quoting: real quoteStringArgument/_parse vs Lean model + oracle."""
-from twisted.internet.endpoints import _parse, quoteStringArgument
+"""C46 — endpoint description quoting: real quoteStringArgument/_parse/serverFromString/clientFromString vs Lean model + oracle."""
+from twisted.internet import endpoints
+from twisted.internet.endpoints import _parse, clientFromString, quoteStringArgument, serverFromString
+from twisted.internet.protocol import Factory
+from twisted.internet.testing import MemoryReactor
 
 HEADLINE = "TwistedProps.C46.roundtrip"
-RULE = ("texts over an alphabet rich in ':', '=', '\\\\', non-ASCII and astral code points; descriptions of 1..6 "
-        "arguments mixing positional and keyword positions; plus raw descriptions parsed directly; "
-        "distinct = (op, which special characters occur, #positional, #keyword, raised?)")
-ASSUMES = ["descriptions are str (the bytes variant of _tokenize is the same code path through _matchingString)",
-           "keyword names contain none of ':', '=', '\\\\' (they are Python identifiers in every endpoint parser)"]
+RULE = ("texts over an alphabet rich in ':', '=', '\\\\', whitespace, shell/path/URL punctuation ('~', '[', ']', '%', '$', ...), "
+        "non-ASCII (precomposed, combining sequences, compatibility characters that NFC/NFKC/case mapping change), astral code "
+        "points and LONE SURROGATES (os.fsdecode of undecodable file names), plus realistic texts (Windows paths, IPv6 literals, "
+        "URLs, '~/x'), one-character texts, texts beginning/ending in an operator or backslash, boundary lengths 63..4096 (and, "
+        "oracle-only, 65537+ with escapes at odd and even offsets) and "
+        "hazard pairs of adjacent arguments (one letter / trailing backslash, then a text starting with backslash / operator); "
+        "descriptions of 1..6 arguments mixing positional and keyword positions, passed as str, as UTF-8 bytes or as a str "
+        "SUBCLASS (the texts themselves optionally str-subclass instances), every description parsed TWICE with the first result "
+        "consumed (args popped / kwargs cleared, as clientFromString does) in between; the same through the public entry points: "
+        "serverFromString / clientFromString with a plugin parser (raw args/kwargs, any argument list) and with the built-in "
+        "unix / tcp parsers (the text observed where the endpoint hands it to a MemoryReactor: listenUNIX address, listenTCP "
+        "interface, connectUNIX path, connectTCP host / bindAddress; positional and keyword slots, decoy keyword arguments "
+        "before and after), with a systematic sweep in both tiers of every EDGES member (what expanduser / expandvars / normpath / "
+        "strip / bracketed-IPv6 / scheme / case-folding / IDNA / int() / C-string / shell-quoting code would rewrite) alone, leading "
+        "and trailing in every built-in slot; plus raw descriptions parsed directly; "
+        "distinct = (op, mode, observed slot, which special characters and text classes occur, #positional, #keyword, raised?)")
+ASSUMES = ["descriptions are str, str subclasses or UTF-8 bytes; the bytes tokenizer is the same code through _matchingString / "
+           "iterbytes and is tied to the character-level model by differential runs (':', '=', backslash are ASCII and never occur "
+           "inside a multi-byte UTF-8 sequence)",
+           "keyword names contain none of ':', '=', '\\\\' (they are Python identifiers in every endpoint parser)",
+           "which positional index / keyword name of the parsed description reaches which reactor parameter is Python's call "
+           "binding of parser(factory, *args[1:], **kw) for the generated templates (unix address/path, tcp interface/host/"
+           "bindAddress); the model selects that index / name from its own parse (driver op `slot`)",
+           "on the wire to the Lean driver a lone surrogate U+D800+i is renamed to the private-use scalar U+10F800+i (Lean Char has no "
+           "surrogates; the model treats every character other than ':', '=', backslash alike and only asks 'is ASCII' of keys); the "
+           "generator never produces U+10F800..U+10FFFF"]
 TRUSTED = ["harness/py2lean.py (translator: endpoints.quoteStringArgument is regenerated into lean/Generated/Quote.lean on every run — "
            "str as List Char, the tuple unpacking of the literal as three characters, the for-loop of argument.replace(c, "
            "backslash + c) as List.foldl of the generated loop body, str.replace with a one-character pattern as the translator's "
-           "fixed pyReplace1; translator-regenerated kernel proved equal to the model: TwistedProps.C46.gen_quote)"]
+           "fixed pyReplace1; translator-regenerated kernel proved equal to the model: TwistedProps.C46.gen_quote)",
+           "twisted.internet.testing.MemoryReactor, subclassed so that listenUNIX/listenTCP/connectUNIX/connectTCP only record their arguments "
+           "(the stock fakes also wrap them in IAddress objects, which reject paths os.fsencode cannot encode)",
+           "endpoints.getPlugins is replaced in-process by a function returning two recording parsers (prefixes 'fake'/'cfake') "
+           "for the duration of one case"]
 MANIFEST = {
     "text": "Lean theorems (TwistedProps/C46.lean) for every list of arguments in every position: parsing the ':'-joined "
             "description built with quoteStringArgument returns exactly the positional texts in order and the keyword texts "
-            "under their names (literal-consumption lemma for the tokenizer, induction over the argument list); "
+            "under their names (literal-consumption lemma for the tokenizer, induction over the argument list); stated per "
+            "position as well (positional_at: the i-th positional text is args[i]; keyword_at: the text is kw[name] unless a later "
+            "argument re-uses the name) and for what a plugin parser receives after the endpoint name is dropped (plugin_roundtrip); "
             "quoteStringArgument itself is regenerated from endpoints.py by the translator on every run and proved equal to the "
-            "model's quote (gen_quote); model tied to "
-            "endpoints.py by differential runs of quote/_parse/roundtrip on hostile texts.",
-    "note": "trusts Lean kernel, the hand-written model of quoteStringArgument/_tokenize/_parse (differentially tied), CPython str.replace",
+            "model's quote (gen_quote); model tied to endpoints.py by differential runs of quote/_parse/roundtrip on hostile texts "
+            "(str, bytes and str-subclass descriptions, each parsed twice) and of serverFromString/clientFromString (plugin, unix, "
+            "tcp) observed at a MemoryReactor.",
+    "note": "trusts Lean kernel, the hand-written model of quoteStringArgument/_tokenize/_parse (differentially tied), CPython str.replace, "
+            "MemoryReactor; the per-endpoint parsers (_parseUNIX, _parseTCP, _parseClientUNIX, _parseClientTCP) are not modelled beyond "
+            "which parsed slot they pass through — they are judged by the oracle and by the model's slot selection",
     "technique": "Lean 4 proof (tokenizer consumption lemma + induction) + differential tie + translator-regenerated kernel "
                  "(quoteStringArgument) proved equal to the model",
     "design_ref": "DESIGN.md §7.6 C46",
 }
 
+OPS3 = [":", "=", "\\"]
 ALPHA = [":", "=", "\\", "a", "b", "/", " ", "é", "€", "\U0001F600", "\x00", "\n", "0", "k"]
+# legal-but-unusual characters: path/shell/URL punctuation, whitespace of every kind, characters changed by Unicode
+# normalisation or case mapping, code points at encoding boundaries, lone surrogates
+ALPHA2 = ["~", "[", "]", "%", "$", "{", "}", "*", "?", "#", ";", ",", "'", '"', "\t", "\r", "\x0b", "\x0c", "\x1c", "\x7f", "\x80",
+          "\x85", "\xa0", "\xff", "\u2028", "\u3000", "\ufeff", "\u0130", "ß", "e\u0301", "\u0301", "\u212b", "\ufb01", "\u1e9e",
+          "\ud800", "\udcff", "\udfff", "\ud83d\ude00", "\uffff", "\U0010f7ff", "\U00010000", "A", "Z", "C", "c", "z", "1", "-", "_",
+          ".", "@", "+", "&", "|", "<", ">", "(", ")", "!", "^", "`", "\u0100", "\u07ff", "\u0800"]
+REAL = ["", "C", "c", "Z", "~", "~/sock", "~user/x", "[::1]", "::1", "[", "]", "[x", "x]", "C:\\Program Files\\sock", "C:\\", "c:",
+        "\\\\server\\share\\f", "/var/run/my socket ", " leading", "trailing\n", "trailing\r\n", "\tx\t", "\xa0x\xa0", "http://h:80/p?q=1&r=2",
+        "tcp:80:interface=127.0.0.1", "unix:/tmp/s:mode=660", "a=b=c", "k=v:j=w", "=", "==", ":", "::", "\\", "\\\\", "\\:", "\\=", ":\\",
+        "=\\", "\\x", "x\\", "%s", "%(path)s", "$HOME/x", "${x}", "*.sock", "caf\xe9", "cafe\u0301", "\u212bngstr\xf6m", "\ufb01le", "\u0130stanbul",
+        "stra\xdfe", "\udcff/x", "x\udc80", "\ud800", "None", "0", "1", "-1", "666", "lockfile", "address", "path", "host", "fake", "unix", "tcp"]
+LETTERS = ["a", "b", "C", "c", "Z", "k", "é", "\u0130"]
 KEYS = ["k", "key", "interface", "privateKey", "a1", "K_"]
+LENGTHS = [63, 64, 65, 255, 256, 257, 1000]
+# what path / host / number handling code is tempted to rewrite, by group; placed at the start, at the end, at both ends of a
+# text, or as the whole text (expanduser, expandvars, normpath, strip, bracketed IPv6, scheme prefixes, case folding, IDNA,
+# int()/octal parsing, C strings, shell quoting)
+EDGES = [
+    ["~", "~/", "~user/", "~\\"],
+    ["$HOME", "${x}", "%TEMP%", "%s", "%(p)s", "{0}", "$"],
+    [".", "..", "./", "../", "/.", "/..", "..."],
+    ["/", "//", "\\", "\\\\", "/x/", "\\x\\"],
+    ["[", "]", "[::1]", "[]", "(", ")", "<", ">", "{", "}"],
+    [" ", "\n", "\r\n", "\t", "\x0b", "\x0c", "\xa0", "\u2028", "\u3000", "\ufeff", "\x85", "\x1c"],
+    ["file:", "unix:", "tcp:", "http://", "ssl:", "C:", "c:\\", "fake:", "="],
+    ["ABC", "Z", "\u0130", "\u1e9e", "\ufb01", "\u212b", "e\u0301", "\u03a3"],
+    ["\xe9", "\xdf", "xn--", "\u3002", "\uff0e", "\udcff", "\ud800", "\U0001F600"],
+    ["0", "00", "-1", "+1", "0x10", "0o7", "1e3", "1_0", "\u0663", "666", "None", "True"],
+    ["\x00", "\x7f", "\x80", "\xff", "\uffff", "\x1b[0m"],
+    ["'", '"', "`", "\\'", "#", ";", "&", "|", "*", "?", "!", "@", ","],
+]
+_SUR0, _PUA0 = 0xD800, 0x10F800
+
+
+class Str(str):
+    """a str subclass (a description or a text that is-a str without being exactly str)"""
+
+
+def _cp(c):
+    o = ord(c)
+    return o - _SUR0 + _PUA0 if 0xD800 <= o <= 0xDFFF else o
 
 
 def enc(t):
-    return ",".join(str(ord(c)) for c in t) if t else "-"
+    return ",".join(str(_cp(c)) for c in t) if t else "-"
+
+
+def _rand(rng, n):
+    pool = OPS3 * 3 + ALPHA + (ALPHA2 if rng.random() < 0.5 else [])
+    return "".join(rng.choice(pool) for _ in range(n))
 
 
 def _text(rng, n=None):
-    n = rng.choice([0, 1, 1, 2, 3, 5, 8]) if n is None else n
-    return "".join(rng.choice(ALPHA[:3] * 3 + ALPHA) for _ in range(n))
+    if n is not None:
+        return _rand(rng, n)
+    r = rng.random()
+    if r < 0.50:
+        return _rand(rng, rng.choice([0, 1, 1, 2, 3, 5, 8]))
+    if r < 0.72:
+        return rng.choice(REAL)
+    if r < 0.80:
+        return rng.choice(LETTERS + OPS3)
+    if r < 0.87:        # begins / ends in an operator or a backslash
+        t = _rand(rng, rng.choice([0, 1, 3]))
+        if rng.random() < 0.6:
+            t = t + rng.choice(OPS3)
+        if rng.random() < 0.6:
+            t = rng.choice(OPS3) + t
+        return t
+    if r < 0.95:
+        return _edge_text(rng)
+    n = rng.choice(LENGTHS)
+    if rng.random() < 0.5:
+        return (rng.choice(OPS3 + ["a", "é", "\udcff"]) * n)[:n]
+    return _rand(rng, n)
+
+
+def _edge_text(rng):
+    """one EDGES group member at the start / end / both ends of a short text, or alone"""
+    g = rng.choice(EDGES)
+    where = rng.randrange(4)
+    mid = rng.choice(["x", "sock", "a.b", "h-1", "x y", ""]) if rng.random() < 0.7 else _rand(rng, rng.choice([1, 2, 4]))
+    if where == 0:
+        return rng.choice(g)
+    if where == 1:
+        return rng.choice(g) + mid
+    if where == 2:
+        return mid + rng.choice(g)
+    return rng.choice(g) + mid + rng.choice(g)
+
+
+def _items(rng, lo=1, hi=6):
+    items = []
+    for _ in range(rng.randint(lo, hi)):
+        if rng.random() < 0.6:
+            items.append(["p", _text(rng)])
+        else:
+            items.append(["k", rng.choice(KEYS), _text(rng)])
+    if items and rng.random() < 0.2:
+        # hazard pair of adjacent arguments: what ends the first meets what starts the second across the ':'
+        a = rng.choice(LETTERS + ["", "\\", ":", "=", "x\\", "C:", "x=", "\udcff"])
+        b = rng.choice(["\\", ":", "=", "\\\\", "\\x", ":x", "=x", ""]) + _rand(rng, rng.choice([0, 1, 2]))
+        i = rng.randrange(len(items) + 1)
+        first = ["p", a] if rng.random() < 0.7 else ["k", rng.choice(KEYS), a]
+        second = ["p", b] if rng.random() < 0.6 else ["k", rng.choice(KEYS), b]
+        items[i:i] = [first, second]
+    return items
+
+
+def _mode(rng):
+    r = rng.random()
+    return "str" if r < 0.55 else "bytes" if r < 0.8 else "sub"
+
+
+# built-in parsers: (side, prefix, observable, positional texts, keyword (name, text) decoys, where the text goes)
+#   "T" marks the slot of the text; sel = ["a", index into args] or ["k", name]
+SLOTS = [
+    ("server", "unix", "unixServer", ["T"], [("mode", "660"), ("backlog", "5"), ("lockfile", "0")], ["a", 1]),
+    ("server", "unix", "unixServer", [], [("address", "T"), ("mode", "600"), ("backlog", "50"), ("lockfile", "1")], ["k", "address"]),
+    ("server", "tcp", "tcpInterface", ["80", "T"], [("backlog", "5")], ["a", 2]),
+    ("server", "tcp", "tcpInterface", ["0"], [("interface", "T"), ("backlog", "7")], ["k", "interface"]),
+    ("client", "unix", "unixClient", ["T"], [("timeout", "9"), ("lockfile", "1")], ["a", 1]),
+    ("client", "unix", "unixClient", [], [("path", "T"), ("timeout", "9"), ("lockfile", "0")], ["k", "path"]),
+    ("client", "tcp", "tcpHost", ["T", "80"], [("timeout", "9"), ("bindAddress", "10.0.0.1")], ["a", 1]),
+    ("client", "tcp", "tcpHost", ["80"], [("host", "T"), ("timeout", "3")], ["k", "host"]),
+    ("client", "tcp", "tcpHost", [], [("host", "T"), ("port", "80", True), ("bindAddress", "x")], ["k", "host"]),
+    ("client", "tcp", "tcpBind", ["h", "80"], [("bindAddress", "T"), ("timeout", "9")], ["k", "bindAddress"]),
+]
+
+
+def _slot_case(rng, text=None, which=None, mode=None):
+    side, prefix, obs, pos, kws, sel = SLOTS[rng.randrange(len(SLOTS)) if which is None else which]
+    t = (_edge_text(rng) if rng.random() < 0.6 else _text(rng)) if text is None else text
+    sub = lambda x: t if x == "T" else x
+    keep = [kv[:2] for kv in kws if kv[1] == "T" or len(kv) > 2 or rng.random() < 0.6]     # (name, value, True) = required
+    rng.shuffle(keep)
+    rest = [["p", sub(x)] for x in pos]
+    for k, v in keep:       # keyword arguments anywhere after the endpoint name, positional ones keep their order
+        rest.insert(rng.randrange(len(rest) + 1), ["k", k, sub(v)])
+    if side == "client" and rng.random() < 0.3:
+        prefix = rng.choice([prefix.upper(), prefix.capitalize()])
+    return {"op": "slot", "side": side, "obs": obs, "sel": sel, "items": [["p", prefix]] + rest,
+            # built-in parsers are looked up by a str name: bytes descriptions never reach them (ValueError: Unknown endpoint type)
+            "mode": (_mode(rng).replace("bytes", "str")) if mode is None else mode}
 
 
 def corpus():
-    return [
+    cs = [
         {"op": "roundtrip", "items": [["p", "a=b"]]},
         {"op": "roundtrip", "items": [["p", "tcp"], ["p", "="], ["k", "k", "x=y:z\\"]]},
         {"op": "roundtrip", "items": [["k", "k", "\\"], ["p", ""]]},
@@ -47,87 +215,281 @@ def corpus():
         {"op": "parse", "d": "a:b:d=1:c"},
         {"op": "parse", "d": "x=y=z:=:q"},
         {"op": "quote", "t": "some : path \\ with = escapes"},
+        # witnesses of the white-box mutants (harness/mutants/C46): one per class
+        {"op": "roundtrip", "items": [["p", "a=b=c"]]},                                   # m01 second '=' of a positional text
+        {"op": "roundtrip", "items": [["p", "\\:"], ["k", "k", "\\=x"]]},                 # m02 backslash directly before an operator
+        {"op": "roundtrip", "items": [["k", "k", "1"], ["k", "key", "2"], ["p", "z"]]},   # m03 keyword after keyword
+        {"op": "roundtrip", "items": [["p", "\udcff/x"], ["k", "k", "\ud800"]]},          # m04 lone surrogates (str)
+        {"op": "roundtrip", "items": [["p", "\udcff/x"], ["k", "k", "é:="]], "mode": "bytes"},   # m05 bytes description
+        {"op": "roundtrip", "items": [["p", "C"], ["p", "\\x"], ["p", "z"]]},             # m06 one letter, then a text starting with backslash
+        {"op": "roundtrip", "items": [["p", "x"], ["k", "k", ""]]},                       # m07 empty keyword text
+        {"op": "roundtrip", "items": [["p", "x"], ["p", ""]]},                            # m08 empty final positional text
+        {"op": "roundtrip", "items": [["k", "k", "v"], ["p", ""]]},
+        {"op": "plugin", "side": "client", "items": [["p", "a"], ["k", "k", "b"]], "mode": "str"},     # m09 parsed twice, first result consumed
+        {"op": "roundtrip", "items": [["p", "cafe\u0301"], ["k", "k", "\u212b\ufb01"]]},  # m10 texts that NFC/NFKC change
+        {"op": "plugin", "side": "client", "items": [["p", "é"], ["k", "k", "€"]], "mode": "str"},     # m11 non-ASCII through clientFromString
+        {"op": "plugin", "side": "server", "items": [["p", "a"], ["p", ""], ["p", "b"]], "mode": "str"},   # m14 empty text handed to a plugin
+        {"op": "plugin", "side": "server", "items": [["p", ""], ["k", "k", ""]], "mode": "sub"},
+        {"op": "roundtrip", "items": [["p", "a:b"], ["k", "k", "c=d"]], "mode": "sub", "tsub": True},  # str-subclass description (fixed defect)
+        {"op": "roundtrip", "items": [["p", ":" * 4096], ["k", "k", "\\" * 4096], ["p", "\udcff" * 4096]]},      # boundary sizes
+        {"op": "roundtrip", "items": [["p", "=" * 4096], ["k", "k", "é" * 4097]], "mode": "bytes"},
     ]
+    # beyond any plausible chunk size, escapes at odd and even offsets: oracle-only (the model's tokenizer is quadratic in the text)
+    for pad in ("", "x"):
+        cs.append({"op": "roundtrip", "items": [["p", pad + ":a" * 33000], ["k", "k", pad + "\\=" * 22000]], "nomodel": True})
+    cs.append({"op": "plugin", "side": "server", "items": [["p", "é\\" * 35000], ["k", "k", "=" * 65537]], "mode": "bytes", "nomodel": True})
+    import random
+    rng = random.Random(46)
+    for i, t in enumerate(["~", "~/sock", "[::1]", "x]", "", " ", "a:b=c\\", "é", "\udcff", "C:\\x"]):
+        for which in range(len(SLOTS)):                                                    # m12 / m13: every built-in slot
+            if (i + which) % 3 == 0 or t in ("~", "[::1]"):
+                cs.append(_slot_case(rng, t, which, "str"))
+    return cs
 
 
 def generate(rng, tier):
-    n = 1500 if tier == "quick" else 40000
+    # systematic sweep (both tiers): every EDGES member alone / leading / trailing, in every built-in slot
+    for which in range(len(SLOTS)):
+        for g in EDGES:
+            for e in g:
+                mid = rng.choice(["x", "sock", "a.b", "h-1", "x y"])
+                for t in (e, e + mid, mid + e):
+                    yield _slot_case(rng, t, which, "sub" if rng.random() < 0.15 else "str")
+    n = 3000 if tier == "quick" else 40000
     for i in range(n):
         r = rng.random()
-        if r < 0.6:
-            items = []
-            for _ in range(rng.randint(1, 6)):
-                if rng.random() < 0.6:
-                    items.append(["p", _text(rng)])
-                else:
-                    items.append(["k", rng.choice(KEYS), _text(rng)])
-            yield {"op": "roundtrip", "items": items}
-        elif r < 0.8:
+        if r < 0.38:
+            c = {"op": "roundtrip", "items": _items(rng), "mode": _mode(rng)}
+            if rng.random() < 0.15:
+                c["tsub"] = True
+            yield c
+        elif r < 0.54:
+            yield {"op": "plugin", "side": rng.choice(["server", "client"]), "items": _items(rng, 0, 5), "mode": _mode(rng)}
+        elif r < 0.78:
+            yield _slot_case(rng)
+        elif r < 0.89:
             yield {"op": "parse", "d": _text(rng, rng.randint(0, 12))}
         else:
-            yield {"op": "quote", "t": _text(rng, rng.randint(0, 10))}
+            c = {"op": "quote", "t": _text(rng) if rng.random() < 0.5 else _text(rng, rng.randint(0, 10))}
+            if rng.random() < 0.2:
+                c["tsub"] = True
+            yield c
+
+
+def _mitem(i):
+    return ("p:" + enc(i[1])) if i[0] == "p" else f"k:{enc(i[1])}:{enc(i[2])}"
 
 
 def model_line(c):
+    if c.get("nomodel"):
+        return None
     if c["op"] == "quote":
         return "quote " + enc(c["t"])
     if c["op"] == "parse":
         return "parse " + enc(c["d"])
-    return "roundtrip " + " ".join(("p:" + enc(i[1])) if i[0] == "p" else f"k:{enc(i[1])}:{enc(i[2])}" for i in c["items"])
+    if c["op"] == "plugin":
+        return "plugin " + " ".join(_mitem(i) for i in [["p", _prefix(c)]] + c["items"])
+    if c["op"] == "slot":
+        s = c["sel"]
+        return "slot " + (f"a:{s[1]}" if s[0] == "a" else "k:" + enc(s[1])) + " " + " ".join(_mitem(i) for i in c["items"])
+    return "roundtrip " + " ".join(_mitem(i) for i in c["items"])
+
+
+def _dec(x):
+    return x.decode("utf-8", "surrogatepass") if isinstance(x, bytes) else x
 
 
 def _show(res):
     args, kw = res
-    return ("args=" + ";".join(enc(a) for a in args) + "|kw="
-            + ";".join(enc(k) + "=" + enc(v) for k, v in sorted(kw.items(), key=lambda kv: [ord(c) for c in kv[0]])))
+    return ("args=" + ";".join(enc(_dec(a)) for a in args) + "|kw="
+            + ";".join(enc(k) + "=" + enc(_dec(v)) for k, v in sorted(kw.items(), key=lambda kv: [ord(c) for c in kv[0]])))
+
+
+def _prefix(c):
+    return "fake" if c["side"] == "server" else "cfake"
+
+
+def _q(c, t):
+    return quoteStringArgument(Str(t) if c.get("tsub") else t)
 
 
 def _describe(c):
-    return ":".join(quoteStringArgument(i[1]) if i[0] == "p" else i[1] + "=" + quoteStringArgument(i[2]) for i in c["items"])
+    items = c["items"]
+    if c["op"] == "plugin":
+        items = [["p", _prefix(c)]] + items
+    return ":".join(_q(c, i[1]) if i[0] == "p" else i[1] + "=" + _q(c, i[2]) for i in items)
+
+
+def _as_mode(c, d):
+    m = c.get("mode", "str")
+    if m == "bytes":
+        return d.encode("utf-8", "surrogatepass")
+    if m == "sub":
+        return Str(d)
+    return d
+
+
+class _Rec:
+    def __init__(self, prefix):
+        self.prefix = prefix
+
+    def parseStreamServer(self, reactor, *args, **kw):
+        return (list(args), dict(kw))
+
+    parseStreamClient = parseStreamServer
+
+
+_PLUGINS = [_Rec("fake"), _Rec("cfake")]
+
+
+class _Reactor(MemoryReactor):
+    """MemoryReactor recording the arguments VERBATIM: the stock methods also build a fake port/connector around an
+    IAddress, and UNIXAddress refuses a path that os.fsencode cannot encode (a surrogate outside U+DC80..U+DCFF) — that is
+    the reactor's business, not the description parser's."""
+
+    def listenUNIX(self, address, factory, backlog=50, mode=0o666, wantPID=0):
+        self.unixServers.append((address, factory, backlog, mode, wantPID))
+
+    def connectUNIX(self, address, factory, timeout=30, checkPID=0):
+        self.unixClients.append((address, factory, timeout, checkPID))
+
+    def listenTCP(self, port, factory, backlog=50, interface=""):
+        self.tcpServers.append((port, factory, backlog, interface))
+
+    def connectTCP(self, host, port, factory, timeout=30, bindAddress=None):
+        self.tcpClients.append((host, port, factory, timeout, bindAddress))
+
+
+def _observe(c, d):
+    """the text (or args/kwargs) that comes out at the far end of the public entry point"""
+    r = _Reactor()
+    ep = (serverFromString if c["side"] == "server" else clientFromString)(r, d)
+    if c["op"] == "plugin":
+        return _show(ep)
+    if c["side"] == "server":
+        ep.listen(Factory())
+    else:
+        ep.connect(Factory())
+    o = c["obs"]
+    v = (r.unixServers[0][0] if o == "unixServer" else r.tcpServers[0][3] if o == "tcpInterface" else
+         r.unixClients[0][0] if o == "unixClient" else r.tcpClients[0][0] if o == "tcpHost" else r.tcpClients[0][4][0])
+    return enc(_dec(v))
+
+
+def _twice(f):
+    """the operation run twice on the same description; the first result is consumed in between"""
+    a = f()
+    b = f()
+    return a if a == b else f"!unstable first[{a}] second[{b}]"
 
 
 def run_impl(c):
     if c["op"] == "quote":
-        return enc(quoteStringArgument(c["t"]))
-    d = c["d"] if c["op"] == "parse" else _describe(c)
+        return enc(quoteStringArgument(Str(c["t"]) if c.get("tsub") else c["t"]))
+    if c["op"] in ("plugin", "slot"):
+        d = _as_mode(c, _describe(c))
+        saved = endpoints.getPlugins
+        endpoints.getPlugins = lambda iface, *a: list(_PLUGINS)
+        try:
+            try:
+                return _twice(lambda: _observe(c, d))
+            except (RuntimeError, UnicodeEncodeError, IndexError) as e:
+                return "!raised " + type(e).__name__
+        finally:
+            endpoints.getPlugins = saved
+    d = c["d"] if c["op"] == "parse" else _as_mode(c, _describe(c))
+
+    def once():
+        res = _parse(d)
+        out = _show(res)
+        if res[0]:
+            res[0].pop(0)       # what clientFromString does with the result it was given
+        res[1].clear()
+        return out
     try:
-        return _show(_parse(d))
+        return _twice(once)
     except (RuntimeError, UnicodeEncodeError, IndexError) as e:
         return "!raised " + type(e).__name__
 
 
-def oracle(c, out):
-    if c["op"] != "roundtrip":
-        return None
+def _expected(c):
+    """the property statement, from the case alone: each quoted text comes back at its position"""
     args = [i[1] for i in c["items"] if i[0] == "p"]
     kw = {}
     for i in c["items"]:
         if i[0] == "k":
             kw[i[1]] = i[2]
-    exp = _show((args, kw))
+    if c["op"] == "slot":
+        s = c["sel"]
+        return enc(args[s[1]] if s[0] == "a" else kw[s[1]])
+    return _show((args, kw))
+
+
+def oracle(c, out):
+    if c["op"] not in ("roundtrip", "plugin", "slot"):
+        return None
+    exp = _expected(c)
     if out != exp:
         bad = [i for i in c["items"] if i[0] == "p" and "=" in i[1]]
-        key = "positional-equals" if bad and not out.startswith("!") else "roundtrip"
-        return {"key": key, "detail": f"description {_describe(c)!r} parsed as {out} expected {exp}"}
+        key = "positional-equals" if c["op"] == "roundtrip" and bad and not out.startswith("!") else "roundtrip"
+        where = c["op"] if c["op"] == "roundtrip" else f"{c['op']} {c['side']}" + (f" {c['obs']}" if c["op"] == "slot" else "")
+        return {"key": key, "detail": f"{where} ({c.get('mode', 'str')}): description {_describe(c)!r} gave {out[:300]} expected {exp[:300]}"}
     return None
 
 
 def shrink(c):
-    if c["op"] != "roundtrip":
+    if c["op"] not in ("roundtrip", "plugin", "slot"):
         return
     items = c["items"]
+    fixed = set()
+    if c["op"] == "slot":       # keep the endpoint name and every positional argument (the selected index must not move)
+        fixed = {i for i, it in enumerate(items) if it[0] == "p"}
     for i in range(len(items)):
-        if len(items) > 1:
-            yield {"op": "roundtrip", "items": items[:i] + items[i + 1:]}
+        if len(items) > 1 and i not in fixed:
+            if c["op"] == "slot" and c["sel"][0] == "k" and items[i][1] == c["sel"][1]:
+                continue
+            yield dict(c, items=items[:i] + items[i + 1:])
     for i, it in enumerate(items):
+        if c["op"] == "slot" and (i == 0 or it[-1].isdigit()):
+            continue
         t = it[-1]
-        for j in range(len(t)):
-            yield {"op": "roundtrip", "items": items[:i] + [it[:-1] + [t[:j] + t[j + 1:]]] + items[i + 1:]}
+        if len(t) > 16:
+            yield dict(c, items=items[:i] + [it[:-1] + [t[:len(t) // 2]]] + items[i + 1:])
+            yield dict(c, items=items[:i] + [it[:-1] + [t[len(t) // 2:]]] + items[i + 1:])
+        for j in range(min(len(t), 24)):
+            yield dict(c, items=items[:i] + [it[:-1] + [t[:j] + t[j + 1:]]] + items[i + 1:])
+    if c.get("mode", "str") != "str":
+        yield dict(c, mode="str")
+    if c.get("tsub"):
+        yield dict(c, tsub=False)
+
+
+def _classes(texts):
+    s = ""
+    j = "".join(texts)
+    if any(0xD800 <= ord(ch) <= 0xDFFF for ch in j):
+        s += "s"
+    if any(ord(ch) > 127 for ch in j):
+        s += "n"
+    if any(len(t) > 60 for t in texts):
+        s += "L"
+    if any(t == "" for t in texts):
+        s += "e"
+    if any(t and (t[0].isspace() or t[-1].isspace()) for t in texts):
+        s += "w"
+    if any(t.endswith("\\") for t in texts):
+        s += "b"
+    if any(ch in j for ch in "~[]%$"):
+        s += "p"
+    return s
 
 
 def tag(c, out):
-    txt = model_line(c)
-    s = "".join(ch for ch, code in ((":", "58"), ("=", "61"), ("\\", "92")) if code in txt.replace(":", " ").replace(",", " ").split())
-    if c["op"] == "roundtrip":
-        return f"rt:{s}:p{sum(1 for i in c['items'] if i[0]=='p')}:k{sum(1 for i in c['items'] if i[0]=='k')}"
+    texts = [i[-1] for i in c["items"]] if "items" in c else [c.get("t", c.get("d", ""))]
+    j = "".join(texts)
+    s = "".join(ch for ch in ":=\\" if ch in j) + "/" + _classes(texts)
+    if c["op"] in ("roundtrip", "plugin", "slot"):
+        what = c["op"] if c["op"] == "roundtrip" else c["side"][0] + (c["obs"] + c["sel"][0] if c["op"] == "slot" else "plugin")
+        return (f"{what}:{c.get('mode', 'str')}{'+t' if c.get('tsub') else ''}:{s}:p{sum(1 for i in c['items'] if i[0]=='p')}"
+                f":k{sum(1 for i in c['items'] if i[0]=='k')}")
     return f"{c['op']}:{s}:{'raise' if out.startswith('!') else 'ok'}"
